@@ -40,7 +40,7 @@ HOWS = ['api', 'api', 'html.parser', 'lxml', 'html5lib', 'xml', 'api-xml']
 def plan(tier, seed):
     units = []
     n_rand = 96 if tier == 'quick' else 1600
-    per = 60 if tier == 'quick' else 200
+    per = 160 if tier == 'quick' else 400
     for i in range(n_rand):
         units.append({'kind': 'rand', 'seed': seed * 1000003 + i, 'n': per})
     nodes = 3 if tier == 'quick' else 4
@@ -125,11 +125,11 @@ def scope_selectors(tier):
 # ---------------------------------------------------------------------------------------------------------
 
 def _cfg():
-    return sels.Cfg()
+    return sels.Cfg(p_id=.1, p_class=.22, p_attr=.25, p_struct=.2, p_more=.35)
 
 
-def check_case(sv, case, ast, text=None):
-    st, info = cases.compare_select(sv, case, ast, text)
+def check_case(sv, case, ast, text=None, match_law=False):
+    st, info = cases.compare_select(sv, case, ast, text, match_law=match_law)
     return st, info
 
 
@@ -196,16 +196,20 @@ def run_unit(u):
         rng = random.Random(u['seed'])
         cfg = _cfg()
         for i in range(u['n']):
-            root, ws = trees.gen_tree(rng, max_nodes=rng.choice([6, 15, 40]))
+            root, ws = trees.gen_tree(rng, max_nodes=rng.choice([6, 15, 40]),
+                                      names=trees.NAMES + (['style', 'script', 'rt'] if rng.random() < .3 else []))
             tops, mode = trees.wrap(rng, root)
             how = rng.choice(HOWS)
             for j in range(4):
                 r = rng.random()
                 target = ['doc'] if r < .6 else (['el', rng.randrange(1000)] if r < .9 else ['detached', rng.randrange(1000)])
                 case = cases.Case(tops, how, target)
-                for _ in range(3):
-                    ast = sels.gen_list(rng, rng.choice([1, 2, 2, 3]), cfg)
-                    st, info = check_case(sv, case, ast)
+                tcfg = sels.tune_to_tree(cfg, case.top_sn, rng)
+                for k3 in range(3):
+                    ast = sels.gen_list(rng, rng.choice([1, 2, 2, 3]), tcfg if k3 else cfg)
+                    st, info = check_case(sv, case, ast, match_law=rng.random() < .15)
+                    if info.get('match_law_checked'):
+                        bump('match_law_checked')
                     handle(case, ast, st, info, tops)
     else:
         sl = scope_selectors(u.get('tier', 'quick'))
